@@ -220,7 +220,7 @@ Definition ideadline (m : imode) : option N :=
 (* ------------------------------------------------------------------ *)
 (** * LMTP *)
 
-Inductive lmode := LCmd | LData (size : Z) | LDone.
+Inductive lmode := LCmd | LData (size : Z) (too_large : bool) | LDone.
 Record lstate := mk_l { l_mode : lmode; l_helo : bool; l_mail : bool; l_rcpts : nat }.
 Record lconf := mk_lc { lc_max_size : Z; lc_max_rcpts : nat; lc_timeout_ms : N }.
 
@@ -241,8 +241,8 @@ Definition split_cmd (line : str) : str * str :=
 
 Definition l_set (s : lstate) (m : lmode) : lstate := mk_l m (l_helo s) (l_mail s) (l_rcpts s).
 
-(** Session.parseMailFrom after the FROM: test. An empty address ("MAIL
-    FROM:<>") is answered 250 but leaves s.mailFrom == "", i.e. "no sender yet". *)
+(** Session.parseMailFrom after the FROM: test (the address itself does not
+    influence the control flow any more since c32f2ea: s.mailSeen). *)
 Definition mail_from (args : str) : str :=
   let a := trim_space args in
   let a := trim_prefix (trim_prefix a (S_ "FROM:")) (S_ "from:") in
@@ -263,7 +263,7 @@ Definition l_command (cf : lconf) (s : lstate) (l : str) (ok : bool) : lstate * 
       if negb (l_helo s) then (s, [L5])
       else if l_mail s then (s, [L5])
       else if negb (has_prefix (to_upper (trim_space args)) (S_ "FROM:")) then (s, [L5])
-      else (mk_l LCmd (l_helo s) (negb (str_eqb (mail_from args) [])) (l_rcpts s), [L2])
+      else (mk_l LCmd (l_helo s) true (l_rcpts s), [L2])      (* s.mailSeen = true, also for the null reverse-path <> *)
     else if cmd_is cmd "RCPT" then
       if negb (l_mail s) then (s, [L5])
       else if lc_max_rcpts cf <=? l_rcpts s then (s, [L4])
@@ -272,7 +272,7 @@ Definition l_command (cf : lconf) (s : lstate) (l : str) (ok : bool) : lstate * 
     else if cmd_is cmd "DATA" then
       if negb (l_mail s) then (s, [L5])
       else if l_rcpts s =? 0 then (s, [L5])
-      else (l_set s (LData 0), [L3])
+      else (l_set s (LData 0 false), [L3])
     else if cmd_is cmd "RSET" then (mk_l LCmd (l_helo s) false 0, [L2])
     else if cmd_is cmd "NOOP" then (s, [L2])
     else if cmd_is cmd "QUIT" then (l_set s LDone, [L2])
@@ -291,18 +291,23 @@ Definition lstep (cf : lconf) (s : lstate) (e : event) : lstate * list lreply :=
       | Data l ok => l_command cf s l ok
       | _ => (l_set s LDone, [])                       (* return fmt.Errorf("read error") *)
       end
-  | LData size =>
+  | LData size big =>
       match e with
       | Data l ok =>
           if is_dot_line l then
-            if ok then (mk_l LCmd (l_helo s) false 0, repeat LDeliv (l_rcpts s))
-            else (l_set s LCmd, [L5])                   (* parse / validation failed: 554, NO reset *)
+            (* end of data: delivery (one 250/550 per recipient), or rejectMessage
+               (552 too large / 554 parse or validation failure, one per recipient);
+               the transaction is reset in every case *)
+            if big then (mk_l LCmd (l_helo s) false 0, repeat L5 (l_rcpts s))
+            else if ok then (mk_l LCmd (l_helo s) false 0, repeat LDeliv (l_rcpts s))
+            else (mk_l LCmd (l_helo s) false 0, repeat L5 (l_rcpts s))
+          else if big then (s, [])                      (* discarded, but read up to the end-of-data marker *)
           else
             let l' := if has_prefix l (S_ "..") then tl l else l in
             let size' := (size + Z.of_nat (length l'))%Z in
-            if (lc_max_size cf <? size')%Z then (l_set s LCmd, [L5])   (* 554, rest of the message is read as commands *)
-            else (l_set s (LData size'), [])
-      | _ => (l_set s LCmd, [L5])                       (* 554 Error reading message; the loop re-arms the deadline *)
+            if (lc_max_size cf <? size')%Z then (l_set s (LData size' true), [])
+            else (l_set s (LData size' false), [])
+      | _ => (l_set s LCmd, [L5])                       (* 554 Error reading message (no reset); the loop re-arms the deadline *)
       end
   | LDone => (s, [])
   end.
